@@ -18,6 +18,7 @@ package main
 import (
 	"fmt"
 	"strings"
+	"sync"
 	"sync/atomic"
 	"time"
 
@@ -31,6 +32,26 @@ type setNode struct {
 	kind string // base | dset | sub
 	set  reactive.Set[int]
 	in   []int // dset: the sources; sub: source, others…
+
+	// WithElements consumer of a derived node: number of set-ups minus tear-downs per element (1 for a member, else 0)
+	mu     *sync.Mutex
+	active map[int]int
+}
+
+// track subscribes a WithElements consumer (a per-element set-up that is torn down when the element leaves the set).
+func (n *setNode) track() {
+	n.active, n.mu = map[int]int{}, &sync.Mutex{}
+	n.set.WithElements(func(x int) func() {
+		n.mu.Lock()
+		n.active[x]++
+		n.mu.Unlock()
+
+		return func() {
+			n.mu.Lock()
+			n.active[x]--
+			n.mu.Unlock()
+		}
+	})
 }
 
 // stackShapes: the derived nodes (numbered from 3) over the base sets 0, 1, 2.
@@ -75,6 +96,7 @@ func buildStackNode(nodes []*setNode, spec setNode) *setNode {
 		}
 		n.set = nodes[spec.in[0]].set.SubtractReactive(others...)
 	}
+	n.track()
 
 	return n
 }
@@ -127,6 +149,24 @@ func checkStack(nodes []*setNode) (lines []string, bad string) {
 			lines = append(lines, strings.TrimSpace(fmt.Sprintf("q sub %s %d %s", joinInts(vals[n.in[0]]), len(parts), strings.Join(parts, " ")))+" "+joinInts(vals[k]))
 			if !sameSet(exp, vals[k]) && bad == "" {
 				bad = fmt.Sprintf("node %d = node %d SubtractReactive nodes %v holds %v but the source holds %v and the subtracted sets %v", k, n.in[0], n.in[1:], vals[k], vals[n.in[0]], parts)
+			}
+		}
+		if n.active != nil {
+			n.mu.Lock()
+			act := []int{}
+			odd := ""
+			for x, c := range n.active {
+				if c == 1 {
+					act = append(act, x)
+				} else if c != 0 {
+					odd = fmt.Sprintf("element %d was set up %d times more often than torn down", x, c)
+				}
+			}
+			n.mu.Unlock()
+			act = sortedCopy(act)
+			lines = append(lines, fmt.Sprintf("q dset 1 %s %s", joinInts(vals[k]), joinInts(act)))
+			if (odd != "" || !sameSet(act, vals[k])) && bad == "" {
+				bad = fmt.Sprintf("the WithElements consumer of node %d has the elements %v set up but the node holds %v %s", k, act, vals[k], odd)
 			}
 		}
 	}
@@ -312,6 +352,117 @@ func stressStackForced(r *hx.Run, f []string) {
 	r.Count("stackforced:" + shape)
 }
 
+// setWritePaths: the write paths of a reactive Set, each making `x` a member (add = true) or removing it.
+var setWritePaths = []string{"single", "all", "apply", "replace", "compute"}
+
+func writeVia(path string, s reactive.Set[int], x int, add bool) {
+	switch path {
+	case "single":
+		if add {
+			s.Add(x)
+		} else {
+			s.Delete(x)
+		}
+	case "all":
+		if add {
+			s.AddAll(ds.NewSet(x))
+		} else {
+			s.DeleteAll(ds.NewSet(x))
+		}
+	case "apply":
+		if add {
+			s.Apply(ds.NewSetMutations(x))
+		} else {
+			s.Apply(ds.NewSetMutations[int]().WithDeletedElements(ds.NewSet(x)))
+		}
+	case "replace":
+		if add {
+			s.Replace(ds.NewSet(x, 9))
+		} else {
+			s.Replace(ds.NewSet(9))
+		}
+	default:
+		s.Compute(func(cur ds.ReadableSet[int]) ds.SetMutations[int] {
+			if add {
+				return ds.NewSetMutations(x)
+			}
+
+			return ds.NewSetMutations[int]().WithDeletedElements(ds.NewSet(x))
+		})
+	}
+}
+
+// stress basewrite <path1> <path2> <add 0|1> <x>: one plain reactive set A (holding 9, and x iff writer 1 removes it)
+// with an observer subscribed first, then D = DerivedSet(A), S = A \ {} and a WithElements consumer.  Writer 1 changes
+// the membership of x through <path1> and is parked in the observer; the observer is unsubscribed; writer 2 makes the
+// inverse change through <path2>; writer 1 is released.  Every write path must notify inside the set's write mutex
+// (writer 2 then simply waits): otherwise the consumers hear the two changes in the wrong order.
+func stressBaseWrite(r *hx.Run, f []string) {
+	p1, p2, add, x := f[2], f[3], f[4] == "1", atoi(f[5])
+	guarded(r, "Stacked", strings.Join(f, " "), func() (o outcome) {
+		init := []int{9}
+		if !add {
+			init = append(init, x)
+		}
+		a := &setNode{kind: "base", set: reactive.NewSet[int](init...)}
+		entered, release := make(chan struct{}), make(chan struct{})
+		var armed atomic.Bool
+		unsubscribeObserver := a.set.OnUpdate(func(ds.SetMutations[int]) {
+			if armed.CompareAndSwap(true, false) {
+				close(entered)
+				<-release
+			}
+		})
+		nodes := []*setNode{a, {kind: "base", set: reactive.NewSet[int]()}, {kind: "base", set: reactive.NewSet[int]()}}
+		nodes = append(nodes, buildStackNode(nodes, setNode{kind: "dset", in: []int{0}}), buildStackNode(nodes, setNode{kind: "sub", in: []int{0, 1}}))
+		armed.Store(true)
+		w1, w2, unsub := make(chan struct{}), make(chan struct{}), make(chan struct{})
+		go func() {
+			defer close(w1)
+			hx.Safely(func() { writeVia(p1, a.set, x, add) })
+		}()
+		reached := true
+		select {
+		case <-entered:
+		case <-w1:
+			reached = false
+		case <-time.After(20 * time.Second):
+			reached = false
+		}
+		if reached {
+			go func() {
+				defer close(unsub)
+				hx.Safely(unsubscribeObserver)
+			}()
+			time.Sleep(20 * time.Millisecond)
+		} else {
+			close(unsub)
+		}
+		go func() {
+			defer close(w2)
+			hx.Safely(func() { writeVia(p2, a.set, x, !add) })
+		}()
+		select {
+		case <-w2:
+		case <-time.After(150 * time.Millisecond):
+		}
+		armed.Store(false)
+		close(release)
+		for _, ch := range []chan struct{}{w1, w2, unsub} {
+			<-ch
+		}
+		lines, bad := checkStack(nodes)
+		o.lines = lines
+		if bad != "" {
+			o.fails = append(o.fails, failure{"stacked-derivation", fmt.Sprintf("%s (node 0 = plain set, node 3 = dset[0], node 4 = sub[0 1]; writer 1 parked in an observer of node 0 while writer 2 ran): %s", strings.Join(f, " "), bad),
+				map[string]string{"construct": "SetWritePath", "trigger": "quiescence", "mode": "forced"}})
+		}
+
+		return o
+	})
+	r.Count("basewrite:" + p1)
+}
+
 // stress stackvar <rounds> <seed>
 func stressStackVar(r *hx.Run, f []string) {
 	rounds, seed := atoi(f[2]), mustU64(f[3])
@@ -443,6 +594,8 @@ func genStack(rng *hx.Rng, kind string) string {
 		return fmt.Sprintf("stress stackvar %d %d", rng.Range(20, 120), rng.U64())
 	case "stacksorted":
 		return fmt.Sprintf("stress stacksorted %d %d", rng.Range(20, 100), rng.U64())
+	case "basewrite":
+		return fmt.Sprintf("stress basewrite %s %s %d %d", hx.Pick(rng, setWritePaths), hx.Pick(rng, setWritePaths), rng.Intn(2), rng.Range(1, 5))
 	case "stackforced":
 		shape := hx.Pick(rng, stackShapeNames)
 		return fmt.Sprintf("stress stackforced %s %d %d", shape, rng.Intn(len(forcedPlans[stackShapes[shape][0].kind])), rng.Range(1, 5))
